@@ -41,12 +41,21 @@ type multi struct {
 	cur   int
 }
 
-func newMulti(f string) *multi {
+// newMulti sets up one board; a root may come with moves already played ("fen|m1 m2 ..."), which
+// can be taken back like any others.
+func newMulti(root string) *multi {
+	f, hist, _ := strings.Cut(root, "|")
 	g, err := ref.GameFromFEN(f)
 	if err != nil {
 		panic(err)
 	}
-	return &multi{zt: board.NewZobristTable(0), real: []*board.Board{bridge.NewBoard(f, 0)}, model: []*ref.Game{g}, floor: []int{1}}
+	m := &multi{zt: board.NewZobristTable(0), real: []*board.Board{bridge.NewBoard(f, 0)}, model: []*ref.Game{g}, floor: []int{1}}
+	for _, t := range strings.Fields(hist) {
+		if !m.apply("push " + t) {
+			panic("bad pre-played history in C08 root: " + root)
+		}
+	}
+	return m
 }
 
 // ops lists the operations applicable in the current state, simplest first.
@@ -200,6 +209,8 @@ func checkC08(c *harness.Check) {
 		{"rnbqkbnr/ppp1pppp/8/8/3pP3/8/PPPP1PPP/RNBQKBNR b KQkq e3 0 3", among("d4e3", "g8f6", "f6g8", "g1f3", "f3g1", "d2e3", "f2e3"), "e.p. and captures"},
 		{"1n2k3/P7/8/8/8/8/7p/4K1N1 w - - 0 1", among("a7a8q", "a7b8n", "h2h1r", "h2g1b", "e1e2", "e8e7"), "promotions"},
 		{"k7/p7/P7/8/8/7p/7P/7K w - - 98 40", among("h1g1", "g1h1", "a8b8", "b8a8"), "clock at the limit"},
+		{"k7/p3p3/P7/8/8/7p/4P2P/7K w - - 0 1|h1g1 a8b8 g1h1 b8a8 h1g1 a8b8 g1h1", among("h1g1", "g1h1", "a8b8", "b8a8", "e7e6", "e2e3"), "pre-played shuffle (position seen twice) + free pawns: irreversible move, take-back, repetition"},
+		{"k7/p3p3/P7/8/8/7p/4P2P/7K w - - 0 1|h1g1 a8b8 g1h1 b8a8", among("h1g1", "g1h1", "a8b8", "b8a8", "e7e6", "e2e3", "e2e4"), "pre-played shuffle + free pawns"},
 	}
 	if c.Thorough() {
 		roots = append(roots, c08root{"r3k2r/8/8/8/8/8/8/R3K2R b KQkq - 4 9", among("e1g1", "e1c1", "e8g8", "e8c8", "h8g8", "a1b1", "g8h8", "b1a1"), "castling flags, Black first"})
